@@ -102,8 +102,10 @@ let ekind v = match str v with
   | "STRUCT" -> RefExpand16.KStruct | "PROTOMSG" -> RefExpand16.KProto | "MSG" -> RefExpand16.KMsg | _ -> failwith "ekind"
 let item16 v = match lst v with
   | [k; s] when str k = "X" -> RefExpand16.Text (str s)
-  | [k; kd; body] when str k = "B" -> RefExpand16.Block (ekind kd, ulines body)
-  | [k; body] when str k = "S" -> RefExpand16.SigBlock (ulines body)
+  | [k; kd; body] when str k = "B" -> RefExpand16.Block (ekind kd, "", "", ulines body)
+  | [k; kd; ib; ie; body] when str k = "B" -> RefExpand16.Block (ekind kd, str ib, str ie, ulines body)
+  | [k; body] when str k = "S" -> RefExpand16.SigBlock ("", "", ulines body)
+  | [k; ib; ie; body] when str k = "S" -> RefExpand16.SigBlock (str ib, str ie, ulines body)
   | _ -> failwith "item16"
 let template16 v = List.map item16 (lst v)
 
